@@ -49,7 +49,7 @@ func init() {
 		Run:         func(c *eng.Ctx) { ruleUpgradeOrder(c) },
 		Controls: []Control{
 			{Name: "upgrade-without-backup", File: "internal/repository/upgrade_repo.go",
-				Old: "	if err != nil {\n		return fmt.Errorf(\"write config file backup to %v failed: %w\", tempdir, err)\n	}\n", New: "	if err != nil {\n		debug.Log(\"write config file backup to %v failed: %v\", tempdir, err)\n	}\n", Rule: "config-replace-order"},
+				Old: "	if err != nil {\n		return fmt.Errorf(\"write config file backup to %v failed: %w\", tempdir, err)\n	}\n", New: "	if err != nil {\n		fmt.Printf(\"write config file backup to %v failed: %v\", tempdir, err)\n	}\n", Rule: "config-replace-order"},
 			{Name: "upgrade-any-version", File: "internal/repository/upgrade_repo.go",
 				Old: "	if repo.Config().Version != 1 {", New: "	if repo.Config().Version > 2 {", Rule: "config-replace-order"},
 			{Name: "no-reupload-on-failure", File: "internal/repository/upgrade_repo.go",
